@@ -31,7 +31,10 @@ RELNAME = {"M": "IR.modules", "S": "Module.sections", "Y": "Module.symbols",
 SET_RELS = [("M", "sections", "S"), ("M", "symbols", "Y"),
             ("M", "proxies", "P"), ("S", "byte_intervals", "I"),
             ("I", "blocks", "CD")]
-NAMES = ["", "a", "b", "main", "main_entry_point_of_the_program"]
+NAMES = ["", "a", "b", "main", "main_entry_point_of_the_program",
+         # canonically equivalent but different strings (composed and
+         # decomposed forms), and a compatibility character
+         "caf\u00e9", "cafe\u0301", "\u212b", "\u00c5", "A\u030a"]
 
 
 def fresh(name):
@@ -1380,6 +1383,18 @@ class World:
                     "payload": self.of(pay) if isinstance(pay, gt.Node)
                     else pay})
 
+    def op_reuuid(self):
+        """A node with no parent (its subtree is then in no IR) is given
+        another UUID: everything that refers to it refers to the object."""
+        loose = [x for x in self.lids("MSYPICD")
+                 if self.parent.get(x) is None]
+        if not loose:
+            return
+        x = self.rnd.choice(loose)
+        self.log(op="reuuid", node=x)
+        self.obj[x].uuid = self.new_uuid()
+        return "reuuid:" + self.kind[x]
+
     # ---- last step of a history -------------------------------------------
     def terminal_step(self):
         """A block whose size the schema cannot express (-1) is put into an
@@ -1461,17 +1476,17 @@ class World:
 
 
 WEIGHTS = {
-    "C03": {"twin_replace": 2, "set_parent": 5, "set_mutation": 6, "list": 4, "ctor": 3,
+    "C03": {"reuuid": 1, "twin_replace": 2, "set_parent": 5, "set_mutation": 6, "list": 4, "ctor": 3,
             "symbol": 1, "attr": 1, "load": 1, "set_query": 1,
             "pingpong": 3, "bulk": 1},
-    "C04": {"twin_replace": 2, "set_parent": 6, "set_mutation": 5, "list": 5,
+    "C04": {"reuuid": 1, "twin_replace": 2, "set_parent": 6, "set_mutation": 5, "list": 5,
             "ctor": 4,
             "symbol": 1, "attr": 4, "load": 1, "set_query": 1,
             "pingpong": 3, "bulk": 1},
-    "C10": {"set_parent": 4, "set_mutation": 4, "list": 2, "ctor": 3,
+    "C10": {"reuuid": 1, "set_parent": 4, "set_mutation": 4, "list": 2, "ctor": 3,
             "symbol": 8, "attr": 1, "load": 1, "set_query": 0,
             "pingpong": 6, "bulk": 0},
-    "C16": {"twin_replace": 2, "set_parent": 2, "set_mutation": 6, "list": 7,
+    "C16": {"reuuid": 1, "twin_replace": 2, "set_parent": 2, "set_mutation": 6, "list": 7,
             "ctor": 2,
             "symbol": 1, "attr": 1, "load": 0, "set_query": 6,
             "pingpong": 1, "bulk": 1},
